@@ -1,4 +1,5 @@
 """C18 — reflection and orientation lists are faithful 1-based, tag-addressable sequences."""
+import numpy as np
 from vlib import drive
 
 SPEC = {
@@ -84,7 +85,12 @@ def payload(i):
 def apply_impl(ub, op):
     """returns result string in the driver's vocabulary"""
     which, k = op[0], op[1]
-    py = lambda ix: ix[1]
+    def py(ix):
+        # an integer index may arrive as a Python int or as any numpy integer (np.arange, array element, ...)
+        v = ix[1]
+        if isinstance(v, int) and not isinstance(v, bool):
+            return (v, np.int64(v), np.int32(v))[(v * 7 + len(k)) % 3]
+        return v
     try:
         if which == "refl":
             if k == "add":
